@@ -417,3 +417,109 @@ pub proof fn lemma_spm_step<P: Prefix, T>(t: Seq<Node<P, T>>, live: ISet<int>, i
         }
     }
 }
+
+// ---- counting helpers for states of different arena length ----
+
+pub proof fn lemma_nval_tail<P: Prefix, T>(t: Seq<Node<P, T>>, live: ISet<int>, n: int, n2: int)
+    requires n <= n2, forall|i: int| n <= i < n2 ==> ind(t, live, i) == 0
+    ensures nval(t, live, n2) == nval(t, live, n)
+    decreases n2 - n
+{
+    if n < n2 { lemma_nval_tail(t, live, n, n2 - 1); }
+}
+
+/// indicators agree everywhere below n2 = max length except at k
+pub proof fn lemma_nval_ext<P: Prefix, T>(t1: Seq<Node<P, T>>, l1: ISet<int>, n1: int, t2: Seq<Node<P, T>>, l2: ISet<int>, n2: int, k: int)
+    requires
+        0 <= n1, 0 <= n2,
+        forall|i: int| i >= n1 ==> !l1.contains(i),
+        forall|i: int| i >= n2 ==> !l2.contains(i),
+        forall|i: int| 0 <= i && i != k ==> ind(t1, l1, i) == ind(t2, l2, i),
+    ensures
+        nval(t2, l2, n2) - nval(t1, l1, n1) == (if 0 <= k { ind(t2, l2, k) - ind(t1, l1, k) } else { 0 }),
+{
+    let n = if n1 > n2 { n1 } else { n2 };
+    let nn = if k >= n { k + 1 } else { n };
+    lemma_nval_tail(t1, l1, n1, nn);
+    lemma_nval_tail(t2, l2, n2, nn);
+    lemma_nval_diff(t1, l1, t2, l2, nn, k);
+}
+
+/// the state reached by `new_node` (not yet linked: the new slot is live but has no parent)
+pub open spec fn new_node_post<P: Prefix, T>(m0: PrefixMap<P, T>, m1: PrefixMap<P, T>, prefix: P, value: Option<T>, r: usize) -> bool {
+    r < m1.tab().len()
+        && !m0.live().contains(r as int)
+        && m1.live() =~= m0.live().insert(r as int)
+        && m1.wf_free()
+        && (if m0.free@.len() > 0 {
+                m1.tab().len() == m0.tab().len() && r == m0.free@.last() && m1.free@ == m0.free@.drop_last()
+            } else {
+                m1.tab().len() == m0.tab().len() + 1 && r == m0.tab().len() && m1.free@ == m0.free@
+            })
+        && frame_nodes(m0.tab(), m1.tab(), r as int, r as int, r as int)
+        && m1.tab()[r as int].prefix == prefix && m1.tab()[r as int].value == value
+        && m1.tab()[r as int].left.is_none() && m1.tab()[r as int].right.is_none()
+        && m1.count as int == m0.count as int + (if value.is_some() { 1int } else { 0int })
+}
+
+pub proof fn lemma_live_pop(free: Seq<usize>, n: int)
+    requires free_ok(free, n), free.len() > 0
+    ensures
+        free_ok(free.drop_last(), n),
+        !free.drop_last().contains(free.last()),
+        forall|x: usize| x != free.last() ==> free.drop_last().contains(x) == free.contains(x),
+        free.contains(free.last()),
+{
+    let f2 = free.drop_last();
+    assert forall|x: usize| x != free.last() implies f2.contains(x) == free.contains(x) by {
+        if free.contains(x) {
+            let k = choose|k: int| 0 <= k < free.len() && free[k] == x;
+            assert(f2[k] == x);
+        }
+        if f2.contains(x) {
+            let k = choose|k: int| 0 <= k < f2.len() && f2[k] == x;
+            assert(free[k] == x);
+        }
+    }
+    if f2.contains(free.last()) {
+        let k = choose|k: int| 0 <= k < f2.len() && f2[k] == free.last();
+        assert(free[k] == free[free.len() - 1]);
+    }
+    assert(free[free.len() - 1] == free.last());
+}
+
+pub proof fn lemma_live_push(free: Seq<usize>, n: int, x: usize)
+    requires free_ok(free, n), 0 < x < n, !free.contains(x)
+    ensures
+        free_ok(free.push(x), n),
+        forall|y: usize| free.push(x).contains(y) == (free.contains(y) || y == x),
+{
+    let f2 = free.push(x);
+    assert forall|y: usize| f2.contains(y) == (free.contains(y) || y == x) by {
+        if free.contains(y) {
+            let k = choose|k: int| 0 <= k < free.len() && free[k] == y;
+            assert(f2[k] == y);
+        }
+        if y == x { assert(f2[free.len() as int] == x); }
+        if f2.contains(y) {
+            let k = choose|k: int| 0 <= k < f2.len() && f2[k] == y;
+            if k < free.len() { assert(free[k] == y); }
+        }
+    }
+    assert forall|k: int, l: int| 0 <= k < l < f2.len() implies f2[k] != f2[l] by {
+        if l == free.len() {
+            assert(f2[k] == free[k]);
+        } else {
+            assert(f2[k] == free[k] && f2[l] == free[l]);
+        }
+    }
+}
+
+/// common consequences of wf() used before arithmetic on the counter / arena
+pub proof fn lemma_wf_bounds<P: Prefix, T>(m: PrefixMap<P, T>)
+    requires m.wf()
+    ensures m.count <= m.tab().len(), m.tab().len() >= 1, m.live().contains(0)
+{
+    lemma_nval_bounds(m.tab(), m.live(), m.tab().len() as int);
+    lemma_glob(m.tab(), m.live());
+}
